@@ -12,7 +12,12 @@ package handshake
 //   malformed | known-field violation (wrong wire type / uint32 out of range) | ambiguous | well-formed(fields).
 //
 // Oracle:
-//   * decode(encode(p)) == p, and both schema decoders read encode(p) as the same five fields;
+//   * decode(encode(p)) == p (nil and empty Cert are the same field value), and both schema decoders read
+//     encode(p) as the same five fields -- for every representation of the Cert slice (nil, non-nil empty,
+//     window into a larger buffer, spare capacity) and of the destination buffer;
+//   * encode(p) is self-delimiting: the Details length prefix covers exactly the bytes written, and when more
+//     data (another payload, further outer fields) is appended into the same buffer the concatenation splits
+//     exactly and reads as the protobuf merge of the parts; inputs and memory outside out are not written;
 //   * every well-formed schema message (including Hmac, Cookie, unknown fields, repeated fields, split Details,
 //     non-minimal varints) decodes through UnmarshalPayload to the five fields the walker and both schema
 //     decoders extract;
@@ -395,19 +400,143 @@ func c08Show(p Payload) string {
 
 // ---- judges ------------------------------------------------------------------------------------------------
 
-// c08JudgeEncode: p -> MarshalPayload -> everything reads the same five fields.
-func c08JudgeEncode(r *verifkit.Reporter, s *c08Schema, p Payload, prefix []byte) {
-	rec := func() any { return map[string]any{"payload": c08Show(p), "cert": verifkit.Hex(p.Cert), "prefix": verifkit.Hex(prefix)} }
+// ---- slice representations ---------------------------------------------------------------------------------
+//
+// A Go byte slice with the same *value* can be nil, non-nil and empty, or a window into a larger buffer with
+// spare capacity. The codec must treat them alike: the property speaks about field values, not slice headers.
+
+var c08CertReps = []string{"exact-or-nil", "non-nil-exact", "window-into-larger-buffer", "make-with-spare-cap"}
+
+// c08CertAs returns a slice with the given content in representation rep, plus the backing array to check
+// afterwards that the encoder wrote nothing into it.
+func c08CertAs(content []byte, rep int) (crt, backing []byte) {
+	n := len(content)
+	switch rep {
+	case 1:
+		crt = make([]byte, n) // []byte{} when empty: non-nil, zero length
+		copy(crt, content)
+		return crt, crt
+	case 2:
+		backing = bytes.Repeat([]byte{0xee}, n+24)
+		copy(backing[7:], content)
+		return backing[7 : 7+n], backing // buf[k:k] when empty; spare capacity holds sentinels
+	case 3:
+		crt = make([]byte, n, n+16)
+		copy(crt, content)
+		return crt, crt[:cap(crt)]
+	}
+	if n == 0 {
+		return nil, nil
+	}
+	crt = bytes.Clone(content)
+	return crt[:n:n], crt
+}
+
+var c08OutReps = []string{"nil", "prefix-exact-cap", "prefix-with-spare-cap", "prefix-window-cap-clipped", "empty-non-nil-with-cap"}
+
+// c08OutAs builds the destination buffer; guard is memory behind a capacity-clipped window that must stay intact.
+func c08OutAs(prefix []byte, rep int) (out, guard []byte) {
+	switch rep {
+	case 1:
+		out = bytes.Clone(prefix)
+		return out[:len(out):len(out)], nil
+	case 2:
+		out = make([]byte, len(prefix), len(prefix)+64)
+		copy(out, prefix)
+		return out, nil
+	case 3:
+		buf := bytes.Repeat([]byte{0xdd}, len(prefix)+32)
+		copy(buf, prefix)
+		return buf[:len(prefix):len(prefix)], buf[len(prefix):]
+	case 4:
+		return make([]byte, 0, 48), nil
+	}
+	return nil, nil
+}
+
+type c08EncCase struct {
+	p       Payload // field values (Cert content; representation chosen by certRep)
+	certRep int
+	outRep  int
+	prefix  []byte
+	next    *Payload // encoded right behind, into the same buffer
+	tail    []byte   // further well-formed outer fields appended behind (e.g. an Hmac field)
+}
+
+func c08Merge(a, b Payload) Payload { // protobuf concatenation = merge, singular fields last-wins when present
+	if len(b.Cert) > 0 {
+		a.Cert = b.Cert
+	}
+	if b.InitiatorIndex != 0 {
+		a.InitiatorIndex = b.InitiatorIndex
+	}
+	if b.ResponderIndex != 0 {
+		a.ResponderIndex = b.ResponderIndex
+	}
+	if b.Time != 0 {
+		a.Time = b.Time
+	}
+	if b.CertVersion != 0 {
+		a.CertVersion = b.CertVersion
+	}
+	return a
+}
+
+// c08Frame checks, from the wire format alone, that b is exactly one outer field 1 (bytes) whose declared length
+// covers precisely the bytes that follow. Returns "" or what is wrong.
+func c08Frame(b []byte) string {
+	if len(b) < 2 || b[0] != 0x0a {
+		return fmt.Sprintf("does not start with the Details tag 0x0a (% x...)", b[:min(len(b), 4)])
+	}
+	l, n, _ := c08Uvarint(b[1:])
+	if n <= 0 {
+		return "length prefix is not a varint"
+	}
+	if written := len(b) - 1 - n; uint64(written) != l {
+		return fmt.Sprintf("Details length prefix declares %d bytes, %d were written", l, written)
+	}
+	return ""
+}
+
+// c08JudgeEncode: p -> MarshalPayload -> everything reads the same five fields, whatever the slice
+// representation of Cert and of the destination buffer, and whatever is appended behind.
+func c08JudgeEncode(r *verifkit.Reporter, s *c08Schema, c c08EncCase) {
+	p := c.p
+	crt, backing := c08CertAs(p.Cert, c.certRep)
+	backingBefore := bytes.Clone(backing)
+	out, guard := c08OutAs(c.prefix, c.outRep)
+	if c.outRep == 0 || c.outRep == 4 {
+		c.prefix = nil
+	}
+	guardBefore := bytes.Clone(guard)
+	rec := func() any {
+		m := map[string]any{"payload": c08Show(p), "cert": verifkit.Hex(p.Cert), "cert_nil": crt == nil, "cert_len": len(crt), "cert_cap": cap(crt),
+			"cert_representation": c08CertReps[c.certRep], "out_representation": c08OutReps[c.outRep], "prefix": verifkit.Hex(c.prefix), "tail": verifkit.Hex(c.tail)}
+		if c.next != nil {
+			m["next_payload"] = c08Show(*c.next)
+		}
+		return m
+	}
+	in := p
+	in.Cert = crt
 	var enc []byte
-	if r.Guard("C08/panic", rec, func() { enc = MarshalPayload(bytes.Clone(prefix), p) }) {
+	if r.Guard("C08/panic", rec, func() { enc = MarshalPayload(out, in) }) {
 		return
 	}
 	r.Eval(1)
-	if !bytes.HasPrefix(enc, prefix) {
+	if !bytes.HasPrefix(enc, c.prefix) {
 		r.Violation("C08/marshal-clobbers-prefix", "MarshalPayload(out, p) did not keep the bytes already in out", rec())
 		return
 	}
-	b := enc[len(prefix):]
+	if !bytes.Equal(backing, backingBefore) || !bytes.Equal(guard, guardBefore) {
+		r.Violation("C08/marshal-writes-outside-out", "MarshalPayload modified the Cert's backing array or memory behind a capacity-clipped out", rec())
+		return
+	}
+	b := enc[len(c.prefix):]
+	if w := c08Frame(b); w != "" {
+		r.Violation("C08/encoding-not-self-delimiting", fmt.Sprintf("encode(p) with Cert %s (nil=%v len=%d): %s; bytes %x", c08CertReps[c.certRep], crt == nil, len(crt), w, b[:min(len(b), 48)]), rec())
+		return
+	}
 	var got Payload
 	var err error
 	if r.Guard("C08/panic", rec, func() { got, err = UnmarshalPayload(b) }) {
@@ -433,7 +562,70 @@ func c08JudgeEncode(r *verifkit.Reporter, s *c08Schema, p Payload, prefix []byte
 		r.Count("encode.byte-identical-to-protobuf-go", 1)
 	} else {
 		r.Count("encode.differs-from-protobuf-go-bytes", 1)
+		// the encoding of a value must not depend on how the slices are represented
+		canon := p
+		canon.Cert, _ = c08CertAs(p.Cert, 0)
+		if plain := MarshalPayload(nil, canon); !bytes.Equal(plain, b) {
+			r.Violation("C08/encoding-depends-on-slice-representation", fmt.Sprintf("same field values encode as %x (Cert %s, out %s) and as %x (plain)", b[:min(len(b), 48)], c08CertReps[c.certRep], c08OutReps[c.outRep], plain[:min(len(plain), 48)]), rec())
+			return
+		}
 	}
+	r.Count("encode.cert-"+c08CertReps[c.certRep], 1)
+	if len(p.Cert) == 0 {
+		r.Count("encode.empty-cert-as-"+c08CertReps[c.certRep], 1)
+	}
+	r.Count("encode.out-"+c08OutReps[c.outRep], 1)
+	// decoding must not look past len(b) into the capacity
+	if cap(enc) > len(enc) {
+		spare := enc[len(enc):cap(enc)]
+		for i := range spare {
+			spare[i] = 0x0a
+		}
+		if g2, e2 := UnmarshalPayload(b); e2 != nil || !c08Same(g2, p) {
+			r.Violation("C08/decode-reads-beyond-length", "UnmarshalPayload's result changed when the bytes behind len(b) (inside the capacity) changed", rec())
+			return
+		}
+	}
+	if c.next == nil && len(c.tail) == 0 {
+		return
+	}
+	// self-delimiting framing: more data appended into the same buffer; the concatenation must split exactly
+	// where the first encoding ended and read as the protobuf merge of the parts.
+	stream, want := enc, p
+	if c.next != nil {
+		nx := *c.next
+		nx.Cert, _ = c08CertAs(c.next.Cert, (c.certRep+1)%len(c08CertReps))
+		if r.Guard("C08/panic", rec, func() { stream = MarshalPayload(stream, nx) }) {
+			return
+		}
+		want = c08Merge(p, *c.next)
+		if w := c08Frame(stream[len(enc):]); w != "" {
+			r.Violation("C08/encoding-not-self-delimiting", "second payload appended behind the first: "+w, rec())
+			return
+		}
+	}
+	stream = append(stream, c.tail...)
+	st := stream[len(c.prefix):]
+	r.Eval(1)
+	if !bytes.Equal(st[:len(b)], b) {
+		r.Violation("C08/marshal-clobbers-prefix", "appending behind an encoded payload changed the encoded payload", rec())
+		return
+	}
+	vd := c08Walk(st)
+	if vd.class != c08WellFormed || !c08Same(vd.p, want) {
+		r.Violation("C08/concatenation-does-not-split", fmt.Sprintf("wire walker reads encode(p)||more as class %d %s %s, want %s; stream %x", vd.class, vd.why, c08Show(vd.p), c08Show(want), st[:min(len(st), 64)]), rec())
+		return
+	}
+	if r.Guard("C08/panic", rec, func() { got, err = UnmarshalPayload(st) }) {
+		return
+	}
+	d1, e1 := s.decode(st)
+	d2, e2 := c08GogoDecode(st)
+	if err != nil || e1 != nil || e2 != nil || !c08Same(got, want) || !c08Same(d1, want) || !c08Same(d2, want) {
+		r.Violation("C08/concatenation-does-not-split", fmt.Sprintf("encode(p)||more: UnmarshalPayload %s %v, protobuf-go %s %v, gogo %s %v, want %s", c08Show(got), err, c08Show(d1), e1, c08Show(d2), e2, c08Show(want)), rec())
+		return
+	}
+	r.Count("encode.concatenations-split-exactly", 1)
 }
 
 // c08JudgeBytes: arbitrary input.
@@ -445,6 +637,27 @@ func c08JudgeBytes(r *verifkit.Reporter, s *c08Schema, b []byte, origin string) 
 		return "panic"
 	}
 	r.Eval(1)
+	// the same bytes as a window into a larger buffer (spare capacity full of plausible tag bytes), and as
+	// nil / non-nil when empty, must decode identically and the buffer must stay untouched
+	big := bytes.Repeat([]byte{0x0a}, len(b)+21)
+	copy(big[5:], b)
+	bigBefore := bytes.Clone(big)
+	var got2 Payload
+	var err2 error
+	if r.Guard("C08/panic", rec, func() { got2, err2 = UnmarshalPayload(big[5 : 5+len(b)]) }) {
+		return "panic"
+	}
+	if (err == nil) != (err2 == nil) || (err == nil && !c08Same(got, got2)) || !bytes.Equal(big, bigBefore) {
+		r.Violation("C08/decode-depends-on-slice-representation", fmt.Sprintf("exact slice: %s %v; window into larger buffer: %s %v; buffer modified=%v", c08Show(got), err, c08Show(got2), err2, !bytes.Equal(big, bigBefore)), rec())
+	}
+	if len(b) == 0 {
+		for _, e := range [][]byte{nil, {}, big[3:3]} {
+			if g3, e3 := UnmarshalPayload(e); e3 != nil || !c08Same(g3, Payload{}) {
+				r.Violation("C08/decode-depends-on-slice-representation", fmt.Sprintf("empty input (nil=%v) decodes to %s, %v", e == nil, c08Show(g3), e3), rec())
+			}
+		}
+		r.Count("bytes.empty-input-all-representations", 1)
+	}
 	vd := c08Walk(b)
 	switch vd.class {
 	case c08Ambiguous:
@@ -685,7 +898,7 @@ func (g c08Gen) message() []byte {
 
 func TestVerifC08Boundary(t *testing.T) {
 	r := verifkit.NewReporter(t, "C08", "boundary",
-		"complete enumeration of payloads whose five fields take boundary values (uint32: 0,1,127,128,16383,16384,2^32-1; time: 0,1,2^32,2^63,2^64-1; cert length 0,1,127,128,300,16384,65535,65536; version 0,1,2,255,2^32-1); encode/decode/three schema readers; distinct = distinct payloads")
+		"complete enumeration of payloads whose five fields take boundary values (uint32: 0,1,127,128,16383,16384,2^32-1; time: 0,1,2^32,2^63,2^64-1; cert length 0,1,127,128,300,16384,65535,65536; version 0,1,2,255,2^32-1); the empty Cert in all four slice representations (nil, []byte{}, buf[k:k] inside a larger buffer, make(0,n)), other lengths rotating through them; five destination-buffer shapes; every third case followed by a second payload and every fourth by an Hmac field appended into the same buffer; encode/decode/three schema readers/framing; distinct = distinct (payload, Cert representation, out representation)")
 	defer r.Done()
 	s, err := c08BuildSchema()
 	if err != nil {
@@ -718,13 +931,24 @@ func TestVerifC08Boundary(t *testing.T) {
 							continue
 						}
 						p := Payload{Cert: certs[cl], InitiatorIndex: ii, ResponderIndex: ri, Time: tm, CertVersion: v}
-						var prefix []byte
-						if n%5 == 0 {
-							prefix = []byte{0xde, 0xad, 0xbe, 0xef}
+						// an empty Cert is tried in every representation (nil, []byte{}, buf[k:k], make(0,n)); other
+						// lengths rotate through them
+						reps := []int{n % len(c08CertReps)}
+						if cl == 0 {
+							reps = []int{0, 1, 2, 3}
 						}
-						r.Pre("boundary %d %s", n, c08Show(p))
-						c08JudgeEncode(r, s, p, prefix)
-						r.Distinct(fmt.Sprintf("%d|%d|%d|%d|%d", ii, ri, tm, cl, v))
+						for _, rep := range reps {
+							c := c08EncCase{p: p, certRep: rep, outRep: (n + rep) % len(c08OutReps), prefix: []byte{0xde, 0xad, 0xbe, 0xef}}
+							if n%3 == 0 {
+								c.next = &Payload{InitiatorIndex: ri ^ 5, Time: tm, Cert: certs[clens[(n/3)%3]]}
+							}
+							if n%4 == 0 {
+								c.tail = []byte{0x12, 0x03, 'm', 'a', 'c'} // Hmac field
+							}
+							r.Pre("boundary %d %s rep %d", n, c08Show(p), rep)
+							c08JudgeEncode(r, s, c)
+							r.Distinct(fmt.Sprintf("%d|%d|%d|%d|%d|%d|%d", ii, ri, tm, cl, v, rep, c.outRep))
+						}
 						if n%2500 == 1 {
 							r.Sample(map[string]any{"payload": c08Show(p)})
 						}
@@ -733,12 +957,12 @@ func TestVerifC08Boundary(t *testing.T) {
 			}
 		}
 	}
-	r.Exhaustive(fmt.Sprintf("all %d combinations of the listed boundary values of the five payload fields", n))
+	r.Exhaustive(fmt.Sprintf("all %d combinations of the listed boundary values of the five payload fields; every combination with an empty Cert in all 4 slice representations", n))
 }
 
 func TestVerifC08Codec(t *testing.T) {
 	r := verifkit.NewReporter(t, "C08", "codec",
-		"PRNG: (a) random payloads through MarshalPayload and all readers; (b) random in-range schema messages (with Hmac, Cookie, absent/empty Details) encoded by protobuf-go and by gogo, read by UnmarshalPayload; (c) grammar-aware byte strings: Details/Hmac/unknown fields of every wire type, repeated fields and repeated Details, wrong wire types and out-of-range values on known fields, non-minimal / over-long / truncated varints, field number 0, groups, random truncation and bit flips; (d) uniformly random byte strings. distinct = distinct inputs (hashed) plus distinct (walker class, feature set) classes")
+		"PRNG: (a) random payloads through MarshalPayload and all readers, with random Cert slice representation (nil / non-nil empty / window into larger buffer / spare capacity), random destination-buffer shape, and in half of the cases a second payload and/or further outer fields appended behind in the same buffer (concatenation must split exactly); (b) random in-range schema messages (with Hmac, Cookie, absent/empty Details) encoded by protobuf-go and by gogo, read by UnmarshalPayload; (c) grammar-aware byte strings: Details/Hmac/unknown fields of every wire type, repeated fields and repeated Details, wrong wire types and out-of-range values on known fields, non-minimal / over-long / truncated varints, field number 0, groups, random truncation and bit flips; (d) uniformly random byte strings. distinct = distinct inputs (hashed) plus distinct (walker class, feature set) classes")
 	defer r.Done()
 	s, err := c08BuildSchema()
 	if err != nil {
@@ -755,9 +979,27 @@ func TestVerifC08Codec(t *testing.T) {
 		case 0: // (a)
 			p := g.payload()
 			r.Pre("codec %d payload %s", i, c08Show(p))
-			c08JudgeEncode(r, s, p, nil)
-			r.Distinct("p" + c08Show(p))
-			r.DistinctClass("payload encode/decode")
+			c := c08EncCase{p: p, certRep: g.rng.IntN(len(c08CertReps)), outRep: g.rng.IntN(len(c08OutReps)), prefix: g.blob(12)}
+			if g.rng.IntN(2) == 0 {
+				nx := g.payload()
+				c.next = &nx
+			}
+			if g.rng.IntN(3) == 0 {
+				c.tail = g.field(2, 2)
+				if g.rng.IntN(2) == 0 {
+					c.tail = append(c.tail, g.field(15, []int{0, 1, 2, 5}[g.rng.IntN(4)])...)
+				}
+				if c08Walk(c.tail).class != c08WellFormed { // generator may emit over-long varints: keep the tail well-formed
+					c.tail = nil
+				}
+			}
+			c08JudgeEncode(r, s, c)
+			r.Distinct(fmt.Sprintf("p%s|%d|%d|%v|%x", c08Show(p), c.certRep, c.outRep, c.next != nil, c.tail))
+			emp := "non-empty"
+			if len(p.Cert) == 0 {
+				emp = "empty"
+			}
+			r.DistinctClass(fmt.Sprintf("payload encode/decode: %s Cert as %s, out %s, followed by payload=%v tail=%v", emp, c08CertReps[c.certRep], c08OutReps[c.outRep], c.next != nil, len(c.tail) > 0))
 		case 1: // (b)
 			p := g.payload()
 			withDetails := g.rng.IntN(8) != 0
